@@ -192,6 +192,7 @@ macro_rules! ops_backend {
                             return Err(Stop::Err("alias"));
                         }
                         let mut res = ct!(r).clone();
+                        crate::fillpat::refill(res.data_mut());
                         let (ca, cb) = (ct!(a), ct!(b));
                         if op == "add" {
                             module.glwe_add_into(&mut res, ca, cb);
@@ -207,6 +208,9 @@ macro_rules! ops_backend {
                             return Err(Stop::Err("alias"));
                         }
                         let mut res = ct!(r).clone();
+                        if matches!(op, "negate" | "copy" | "normalize") {
+                            crate::fillpat::refill(res.data_mut());
+                        }
                         let ca = ct!(a);
                         match op {
                             "add_assign" => module.glwe_add_assign(&mut res, ca),
@@ -237,6 +241,7 @@ macro_rules! ops_backend {
                             return Err(Stop::Err("alias"));
                         }
                         let mut res = ct!(r).clone();
+                        crate::fillpat::refill(res.data_mut());
                         let ca = ct!(a);
                         if op == "rotate" {
                             module.glwe_rotate(k, &mut res, ca);
@@ -278,6 +283,9 @@ macro_rules! ops_backend {
                             return Err(Stop::Err("alias"));
                         }
                         let mut res = ct!(r).clone();
+                        if op == "lsh" {
+                            crate::fillpat::refill(res.data_mut());
+                        }
                         let ca = ct!(a);
                         match op {
                             "lsh" => module.glwe_lsh(&mut res, ca, k, scratch.borrow()),
@@ -294,6 +302,17 @@ macro_rules! ops_backend {
                             return Err(Stop::Err("alias"));
                         }
                         let mut res = gg!(r).clone();
+                        if crate::fillpat::active() {
+                            use poulpy_core::layouts::{GGSWInfos, GLWEInfos};
+                            let (dn, rk): (usize, usize) = (res.dnum().into(), res.rank().into());
+                            for row in 0..dn {
+                                for ci in 0..rk + 1 {
+                                    for (i, x) in res.at_mut(row, ci).data_mut().raw_mut().iter_mut().enumerate() {
+                                        *x = crate::fillpat::pat(0, i + 977 * (row * 16 + ci));
+                                    }
+                                }
+                            }
+                        }
                         let ga = gg!(a);
                         module.ggsw_rotate(k, &mut res, ga);
                         pool[r] = Obj::Gg(res);
@@ -333,6 +352,7 @@ pub fn run(_args: &[String]) {
     let mut w = std::io::BufWriter::new(stdout.lock());
     for line in stdin.lock().lines() {
         let line = line.unwrap();
+        crate::fillpat::set_from_line(&line);
         let mut parts = line.split(';');
         let head: Vec<&str> = parts.next().unwrap_or("").split_whitespace().collect();
         if head.is_empty() {
